@@ -12,6 +12,7 @@
 From Coq Require Import List NArith Bool.
 From Coq.Strings Require Import Byte.
 Import ListNotations.
+From OV Require Import Model.Value Model.XPathFrag Model.Decl Model.Eval Proofs.PipelineC02.
 From OV Require Import Base.Bytes Base.Tree Model.Pipeline Proofs.Pipeline Proofs.PipelineInst Proofs.PipelineCanon.
 
 Section C10.
@@ -77,6 +78,36 @@ Section C10.
     run_env h s ctx (replace_at i (URec t') us) = replace_at i RFail (run_env h' s ctx us).
   Proof. exact (run_replace_failing schema V C c0 eval marshal marshal_err_cont H canon CInv content_stable_per_id CInv_mono eval_cache_transparent eval_id_renaming eval_caches_sound). Qed.
 End C10.
+
+
+(* ---- with the C02 evaluator: no evaluator hypothesis left ---------------------------------------- *)
+(* eval_c02 (Proofs/PipelineC02.v) = Model/Eval.v's ParseNode model run on the document
+   T DocumentNode [] FNone (ctx ++ [record]) at the record, node IDs = the world's IDs by preorder
+   index; eval_cache_transparent / eval_id_renaming are discharged by Proofs/EvalCache.v
+   (caches_invisible_eval, eval_id_renaming, memo_sound_nil).  What remains assumed: the xpath
+   engine returns nodes of the tree it is run on (query_valid); engine, externals and custom
+   functions are deterministic functions (Section variables). *)
+Section C10_C02.
+  Variable query : tree -> bytes -> path -> option (list path).
+  Variable ext : bytes -> option bytes.
+  Variable fsigs : bytes -> option fsig.
+  Variable fcall : tree -> bytes -> path -> list value -> cfres.
+  Variable pcall : tree -> bytes -> path -> cfres.
+  Hypothesis query_valid : forall root x p ps,
+    valid root p -> query root x p = Some ps -> Forall (valid root) ps.
+  Variable marshal : value -> option bytes.
+  Variable marshal_err_cont : bool.
+  Variable H : bytes -> bytes.
+  Variable canon : tree -> bytes.
+  Notation eval_c02 := (eval_c02 query ext fsigs fcall pcall).
+  Notation run_env_c02 := (run_env vdecl value unit eval_c02 marshal marshal_err_cont H canon).
+
+  Theorem run_app_c02 : forall h ha hb s ctx a b,
+    Inv0 h -> Inv0 ha -> Inv0 hb ->
+    nofatal (run_env_c02 ha s ctx a) ->
+    run_env_c02 h s ctx (a ++ b) = run_env_c02 ha s ctx a ++ run_env_c02 hb s ctx b.
+  Proof. exact (run_app_c02 query ext fsigs fcall pcall query_valid marshal marshal_err_cont H canon). Qed.
+End C10_C02.
 
 (* the list algebra the correspondence checker evaluates *)
 Theorem replace_at_spec : forall (A : Type) i j (x : A) l,
